@@ -238,6 +238,10 @@ def gen_scenario(seed, profile="general", n_ops=(3, 9)):
     for o in ops:
         if o["op"] in ("create", "verify", "verifydh", "diff", "info", "flatten") and rnd.random() < 0.2:
             o["spell"] = rnd.choice(["slash", "dot", "dotdot", "relative", "cwd", "symlink"])
+        if o["op"] in ("create", "verify") and o.get("sf") is not None and "spell" not in o and rnd.random() < 0.25:
+            o["sf_rel"] = rnd.choice(["base", "root", "sub"])
+            if rnd.random() < 0.3:
+                o["sf_rel_root"] = False
         if o["op"] == "create" and o.get("sf") and rnd.random() < 0.4:
             raws = []
             for x in o["sf"]:
